@@ -354,6 +354,49 @@ def split_echo(lines, exp):
     return out
 
 
+def string_histories(ctx, binary):
+    """the receiver of len / indexing / substring is a VARIABLE with a history (built by +=, *=, re-assignment in a block
+    or a loop): the methods must see the string the variable holds now (Python oracle)"""
+    rng = ctx.rng
+    base = ctx.mktemp()
+    progs = []
+    for _ in range(40 if ctx.quick() else 400):
+        a = "".join(rng.choice("abcxyz") for _ in range(rng.randint(1, 4)))      # ASCII: byte and character positions coincide
+        b = "".join(rng.choice("defuvw") for _ in range(rng.randint(1, 4)))
+        k = rng.randint(2, 3)
+        how = rng.choice(["+=", "*=", "block", "loop", "else", "fn"])
+        if how == "+=":
+            src, cur = 'q = "%s"\nq += "%s"\n' % (a, b), a + b
+        elif how == "*=":
+            src, cur = 'q = "%s"\nq *= %d\n' % (a, k), a * k
+        elif how == "block":
+            src, cur = 'q = "%s"\nif true {\n  q = "%s"\n}\n' % (a, a + b), a + b
+        elif how == "else":
+            src, cur = 'q = "%s"\nif q.len() > 99 {\n  q = "z"\n} else {\n  q = q + "%s"\n}\n' % (a, b), a + b
+        elif how == "loop":
+            src, cur = 'q = "%s"\nfrom 0 to %d {\n  q = q + "%s"\n}\n' % (a, k, b), a + b * k
+        else:
+            src, cur = 'q = "%s"\ngrow = fn(s: str) -> str {\n  return s + "%s"\n}\nq = grow(q)\n' % (a, b), a + b
+        i = len(cur) - 1
+        lo = rng.randint(0, len(cur) - 1)
+        src += "print q.len()\nprint q[%d]\nprint q[0]\nprint q.substring(%d, %d)\nprint q.index_of(\"%s\")\n" % (i, lo, len(cur), cur[-1])
+        exp = [str(len(cur)), cur[i], cur[0], cur[lo:], str(cur.index(cur[-1]))]
+        progs.append((how, src, exp))
+
+    def one(p):
+        d = programs.materialize({"files": {"t.ms": p[1]}}, base)
+        return programs.run_bin(binary, ["run", "t.ms", "-q"], d)
+    n = 0
+    for (how, src, exp), (rc, out, err) in zip(progs, programs.pmap(one, progs)):
+        n += 1
+        got = out.split("\n")[:-1]
+        if rc != 0 or got != exp:
+            ctx.report("string-history/%s" % how, "a string variable built by `%s`: len / index / substring / index_of give %r (exit %d), its value demands %r: %s" % (how, got, rc, exp, (out + err)[-200:].replace("\n", " ")),
+                       {"program": src, "expected": exp, "observed": got, "rc": rc, "stderr": err[-500:], "how": "mscript run t.ms -q"})
+    ctx.cov["string_history_programs"] = n
+    return n
+
+
 def run_all(ctx, binary, cases, expect_fail, batch=120):
     """every case is executed exactly once (cases behind a stopping call are re-batched)"""
     base = ctx.mktemp()
@@ -1141,7 +1184,9 @@ def run(ctx):
             head_diff += 1
         if o[0] == "ok" and spec[0] == "val" or o[0] in ("err", "panic"):
             nontrivial.add(repr(case))
-    ctx.cov["evaluations"] = len(cases)
+    nhist = string_histories(ctx, binary)
+    spec_fail += sum(1 for v in ctx.viol if v[0].startswith("string-history"))
+    ctx.cov["evaluations"] = len(cases) + nhist
     ctx.cov["distinct_nontrivial"] = len(nontrivial)
     ctx.cov["rule"] = ("one evaluation = one built-in call executed by the real interpreter and compared with the Coq impl-model, the Coq "
                        "specification and the Python oracle; non-trivial = distinct call whose outcome the specification fixes (a demanded value, or a demanded stop)")
